@@ -380,7 +380,7 @@ impl<S: ShapeOps> AnySession for Sess<S> {
                     match self.slots.get(&tok.parse().unwrap()) {
                         // four ways a timeline reaches `on`: an explicit merge, `Into<MergedTimeline>`, the timeline itself and the
                         // un-built configuration (the two derive-generated `TimelineOrBuilder` impls)
-                        Some(Slot::Tl(t)) => b = match (i + slot) % 4 {
+                        Some(Slot::Tl(t)) => b = match { if (i + slot) % 3 == 0 { b = b.on(st_of(i), MergedTimeline::of([t.clone(), t.clone()])); if let Some(Slot::Tl(o)) = self.slots.get(&(tok.parse::<usize>().unwrap() + 1)) { b = b.on(st_of(i), o.clone()); } } (i + slot) % 4 } {
                             0 => b.on(st_of(i), MergedTimeline::of([t.clone()])),
                             1 => b.on(st_of(i), { let m: MergedTimeline<S::Tl> = t.clone().into(); m }),
                             2 => b.on(st_of(i), t.clone()),
@@ -405,7 +405,13 @@ impl<S: ShapeOps> AnySession for Sess<S> {
             "set" => {
                 let slot: usize = w[1].parse().unwrap();
                 match self.slots.get_mut(&slot) {
-                    Some(Slot::An(a)) => { in_animator_call(|| a.set_state(&st_of(w[2].parse().unwrap()))); show_anim::<S>(a) }
+                    Some(Slot::An(a)) => {
+                        // every other call goes through the `StateAnimator` trait explicitly (as generic code or a `dyn` user would)
+                        let st = st_of(w[2].parse().unwrap());
+                        if CALLS.fetch_add(1, std::sync::atomic::Ordering::Relaxed) % 2 == 0 { in_animator_call(|| a.set_state(&st)); }
+                        else { let d: &mut dyn StateAnimator<State = St, Values = S::Target> = a; in_animator_call(|| d.set_state(&st)); }
+                        show_anim::<S>(a)
+                    }
                     _ => "bad-slot".into(),
                 }
             }
@@ -484,6 +490,8 @@ pub fn panic_tag(msg: &str) -> String {
         format!("other:{}", msg.replace(' ', "_"))
     }
 }
+
+static CALLS: std::sync::atomic::AtomicUsize = std::sync::atomic::AtomicUsize::new(0);
 
 pub struct Runner {
     sessions: HashMap<String, Box<dyn AnySession>>,
@@ -568,7 +576,10 @@ impl Runner {
                 let e_of = |t: &str| if t == "-" { None } else { Some(parse_easing(t)) };
                 if w[2] == "f" {
                     let kfs: Vec<Keyframe<Option<f32>>> = (0..n).map(|k| Keyframe::new(fb(w[6 + 3 * k]), if w[8 + 3 * k] == "-" { None } else { Some(fb(w[8 + 3 * k])) }, e_of(w[7 + 3 * k]))).collect();
-                    self.subs.insert(slot, SubTimeline::from_keyframes(&kfs, fb(w[3]), |d| *d, e0));
+                    // odd slots hand the keyframes over as a lazily filtered iterator (no exact size hint), even slots as a slice
+                    let st = if slot % 2 == 1 { SubTimeline::from_keyframes(kfs.iter().filter(|k| !std::ptr::eq(*k, std::ptr::null())), fb(w[3]), |d| *d, e0) }
+                        else { SubTimeline::from_keyframes(&kfs, fb(w[3]), |d| *d, e0) };
+                    self.subs.insert(slot, st);
                     self.subs_i.remove(&slot);
                 } else {
                     let kfs: Vec<Keyframe<Option<i16>>> = (0..n).map(|k| Keyframe::new(fb(w[6 + 3 * k]), if w[8 + 3 * k] == "-" { None } else { Some(w[8 + 3 * k].parse().unwrap()) }, e_of(w[7 + 3 * k]))).collect();
@@ -576,6 +587,19 @@ impl Runner {
                     self.subs.remove(&slot);
                 }
                 "ok".into()
+            }
+            "subcf" => {
+                // subcf <dst> <src>: dst.clone_from(&src)
+                let (d, sl): (usize, usize) = (w[1].parse().unwrap(), w[2].parse().unwrap());
+                if let Some(src) = self.subs.get(&sl).cloned() {
+                    match self.subs.get_mut(&d) { Some(dst) => dst.clone_from(&src), None => { self.subs.insert(d, src); } }
+                    self.subs_i.remove(&d);
+                    "ok".into()
+                } else if let Some(src) = self.subs_i.get(&sl).cloned() {
+                    match self.subs_i.get_mut(&d) { Some(dst) => dst.clone_from(&src), None => { self.subs_i.insert(d, src); } }
+                    self.subs.remove(&d);
+                    "ok".into()
+                } else { "bad-slot".into() }
             }
             "subov" => {
                 let slot: usize = w[1].parse().unwrap();
